@@ -270,8 +270,9 @@ func emitterOpts(pr *printer, n int, nest bool) []string {
 	return out
 }
 
-// Source renders program p and fills p.Probes. The second result is the
-// source of the functions the program needs in its package's aux subpackage.
+// Source renders program p and fills p.Probes. It returns the declarations
+// of the program (without file header) and the source of the functions the
+// program needs in its package's ext subpackage.
 func Source(p *Prog) (string, string) {
 	pr := &printer{p: p, pfx: fmt.Sprintf("P%d", p.ID)}
 	var fn string
@@ -282,17 +283,31 @@ func Source(p *Prog) (string, string) {
 	}
 	p.Probes = pr.probes
 	var out strings.Builder
-	auxImport := ""
-	if pr.aux.Len() > 0 || usesOther(p) {
-		auxImport = "\t\"cffverif/corpus/" + p.Pkg + "/ext\"\n"
-	}
-	out.WriteString("//go:build cff\n\npackage " + p.Pkg + "\n\nimport (\n\t\"context\"\n\n" + auxImport + "\t\"cffverif/rt\"\n\n\t\"go.uber.org/cff\"\n)\n\nvar _ context.Context\nvar _ rt.H\n\n")
 	fmt.Fprintf(&out, "type %sw struct{ h rt.H }\n\n", strings.ToLower(pr.pfx))
 	out.WriteString(pr.b.String())
 	out.WriteString("\n")
 	out.WriteString(fn)
 	return out.String(), pr.aux.String()
 }
+
+// FileSource assembles a cff-tagged file from the bodies of one or more
+// programs (several directives per file).
+func FileSource(pkg string, bodies []string, needExt bool) string {
+	var out strings.Builder
+	extImport := ""
+	if needExt {
+		extImport = "\t\"cffverif/corpus/" + pkg + "/ext\"\n"
+	}
+	out.WriteString("//go:build cff\n\npackage " + pkg + "\n\nimport (\n\t\"context\"\n\n" + extImport + "\t\"cffverif/rt\"\n\n\t\"go.uber.org/cff\"\n)\n\nvar _ context.Context\nvar _ rt.H\n\n")
+	for _, b := range bodies {
+		out.WriteString(b)
+		out.WriteString("\n")
+	}
+	return out.String()
+}
+
+// NeedsExt tells whether the program's source refers to the ext package.
+func NeedsExt(p *Prog, extSrc string) bool { return extSrc != "" || usesOther(p) }
 
 func usesOther(p *Prog) bool {
 	if p.Flow == nil {
@@ -317,7 +332,9 @@ func AuxHeader() string {
 }
 
 type renderItem struct {
-	render func() string
+	render    func() string
+	instrFlow bool   // the cff.InstrumentFlow option
+	task      *TaskP // a cff.Task option
 }
 
 func (pr *printer) flow(f *FlowP) string {
@@ -328,6 +345,11 @@ func (pr *printer) flow(f *FlowP) string {
 	}
 	names := append([]string{}, collidingNames...)
 	rng.Shuffle(len(names), func(i, j int) { names[i], names[j] = names[j], names[i] })
+	if pr.p.PlainNames {
+		for i := range names {
+			names[i] = fmt.Sprintf("in%d", i)
+		}
+	}
 	var fb strings.Builder
 	fmt.Fprintf(&fb, "func %s(ctx context.Context, h rt.H, p []uint64) (res []uint64, err error) {\n", pr.p.Name)
 	fmt.Fprintf(&fb, "\tw := &%sw{h: h}\n\t_ = w\n", strings.ToLower(pr.pfx))
@@ -357,7 +379,7 @@ func (pr *printer) flow(f *FlowP) string {
 			if len(part) == 0 {
 				continue
 			}
-			items = append(items, renderItem{func() string {
+			items = append(items, renderItem{render: func() string {
 				var a []string
 				for _, t := range part {
 					a = append(a, pr.probe("param", pname[t]))
@@ -367,7 +389,7 @@ func (pr *printer) flow(f *FlowP) string {
 		}
 	}
 	if len(f.Results) > 0 {
-		items = append(items, renderItem{func() string {
+		items = append(items, renderItem{render: func() string {
 			var a []string
 			for k := range f.Results {
 				a = append(a, pr.probe("result", fmt.Sprintf("&r%d", k)))
@@ -377,23 +399,23 @@ func (pr *printer) flow(f *FlowP) string {
 	}
 	switch f.ConcMode {
 	case ArgConst:
-		items = append(items, renderItem{func() string {
+		items = append(items, renderItem{render: func() string {
 			return "cff.Concurrency(" + pr.probe("concurrency", fmt.Sprint(f.ConcConst)) + ")"
 		}})
 	case ArgRuntime:
-		items = append(items, renderItem{func() string { return "cff.Concurrency(" + pr.probe("concurrency", "h.Conc(0)") + ")" }})
+		items = append(items, renderItem{render: func() string { return "cff.Concurrency(" + pr.probe("concurrency", "h.Conc(0)") + ")" }})
 	}
 	if f.Emitters > 0 {
-		items = append(items, renderItem{func() string { return strings.Join(emitterOpts(pr, f.Emitters, f.EmitNest), ",\n\t\t") }})
+		items = append(items, renderItem{render: func() string { return strings.Join(emitterOpts(pr, f.Emitters, f.EmitNest), ",\n\t\t") }})
 		if f.InstrFlow {
-			items = append(items, renderItem{func() string {
+			items = append(items, renderItem{render: func() string {
 				return "cff.InstrumentFlow(" + pr.probe("instrument-flow", fmt.Sprintf("%q", "f"+fmt.Sprint(pr.p.ID))) + ")"
-			}})
+			}, instrFlow: true})
 		}
 	}
 	for i := range f.Tasks {
 		t := &f.Tasks[i]
-		items = append(items, renderItem{func() string {
+		items = append(items, renderItem{task: t, render: func() string {
 			fnExpr := pr.flowTaskFunc(f, t)
 			if t.WrapFn {
 				fnExpr = pr.probe("task-func", fnExpr)
@@ -436,7 +458,14 @@ func (pr *printer) flow(f *FlowP) string {
 		ctxExpr = "rt.Seen(h, 0, err == rt.ErrMark, ctx)"
 	}
 	fb.WriteString("\terr = cff.Flow(" + pr.probe("ctx", ctxExpr))
+	seenInstrFlow := false
 	for _, it := range items {
+		if it.instrFlow {
+			seenInstrFlow = true
+		}
+		if it.task != nil {
+			it.task.AutoInstr = pr.p.AutoInstr && seenInstrFlow && !it.task.Instr
+		}
 		fb.WriteString(",\n\t\t" + it.render())
 	}
 	fb.WriteString(",\n\t)\n")
@@ -494,7 +523,7 @@ func (pr *printer) par(p *ParP) string {
 		}
 		v := fmt.Sprintf("c%d", c.ID)
 		names := []string{"idx", "val", "key", "tasks", "sched"}
-		if rng.Intn(3) == 0 {
+		if rng.Intn(3) == 0 && !pr.p.PlainNames {
 			v = names[rng.Intn(len(names))] + fmt.Sprint(c.ID)
 		}
 		if c.Map {
@@ -558,26 +587,26 @@ func (pr *printer) par(p *ParP) string {
 	var items []renderItem
 	switch p.ConcMode {
 	case ArgConst:
-		items = append(items, renderItem{func() string {
+		items = append(items, renderItem{render: func() string {
 			return "cff.Concurrency(" + pr.probe("concurrency", fmt.Sprint(p.ConcConst)) + ")"
 		}})
 	case ArgRuntime:
-		items = append(items, renderItem{func() string { return "cff.Concurrency(" + pr.probe("concurrency", "h.Conc(0)") + ")" }})
+		items = append(items, renderItem{render: func() string { return "cff.Concurrency(" + pr.probe("concurrency", "h.Conc(0)") + ")" }})
 	}
 	switch p.COEMode {
 	case ArgConst:
-		items = append(items, renderItem{func() string { return "cff.ContinueOnError(" + pr.probe("continue-on-error", "true") + ")" }})
+		items = append(items, renderItem{render: func() string { return "cff.ContinueOnError(" + pr.probe("continue-on-error", "true") + ")" }})
 	case ArgConstFalse:
-		items = append(items, renderItem{func() string { return "cff.ContinueOnError(" + pr.probe("continue-on-error", "false") + ")" }})
+		items = append(items, renderItem{render: func() string { return "cff.ContinueOnError(" + pr.probe("continue-on-error", "false") + ")" }})
 	case ArgRuntime:
-		items = append(items, renderItem{func() string {
+		items = append(items, renderItem{render: func() string {
 			return "cff.ContinueOnError(" + pr.probe("continue-on-error", "h.Bool(0) && !h.Bool(1)") + ")"
 		}})
 	}
 	if p.Emitters > 0 {
-		items = append(items, renderItem{func() string { return strings.Join(emitterOpts(pr, p.Emitters, p.EmitNest), ",\n\t\t") }})
+		items = append(items, renderItem{render: func() string { return strings.Join(emitterOpts(pr, p.Emitters, p.EmitNest), ",\n\t\t") }})
 		if p.InstrPar {
-			items = append(items, renderItem{func() string {
+			items = append(items, renderItem{render: func() string {
 				return "cff.InstrumentParallel(" + pr.probe("instrument-parallel", fmt.Sprintf("%q", "f"+fmt.Sprint(pr.p.ID))) + ")"
 			}})
 		}
@@ -587,7 +616,7 @@ func (pr *printer) par(p *ParP) string {
 	for i := range p.Tasks {
 		t := &p.Tasks[i]
 		if t.Group == 0 {
-			items = append(items, renderItem{func() string {
+			items = append(items, renderItem{render: func() string {
 				s := "cff.Task(" + taskFn(t)
 				if t.Instr {
 					s += ", cff.Instrument(" + pr.probe("instrument", fmt.Sprintf("%q", fmt.Sprintf("t%d", t.ID))) + ")"
@@ -603,7 +632,7 @@ func (pr *printer) par(p *ParP) string {
 	}
 	for _, g := range gorder {
 		g := g
-		items = append(items, renderItem{func() string {
+		items = append(items, renderItem{render: func() string {
 			var a []string
 			for _, t := range groups[g] {
 				a = append(a, taskFn(t))
@@ -613,7 +642,7 @@ func (pr *printer) par(p *ParP) string {
 	}
 	for i := range p.Colls {
 		c := &p.Colls[i]
-		items = append(items, renderItem{func() string {
+		items = append(items, renderItem{render: func() string {
 			info := ci[c.ID]
 			var params []string
 			ctxArg := "nil"
